@@ -608,3 +608,180 @@ impl<P: TInputProtocol + RProbe> TInputProtocol for TracedR<P> {
         self.inner.buf()
     }
 }
+
+// ------------------------------------------------------------------------------------------------
+// asynchronous reader side
+use std::sync::atomic::{AtomicUsize, Ordering};
+use std::sync::Arc;
+
+use pilota::thrift::TAsyncInputProtocol;
+
+/// private state of an asynchronous protocol object (compact: through the hook), in the reader's event format
+pub trait AProbe {
+    fn astate(&self) -> Value {
+        json!([])
+    }
+}
+impl<R> AProbe for pilota::thrift::binary::TAsyncBinaryProtocol<R> {}
+impl<R> AProbe for pilota::thrift::binary_le::TAsyncBinaryProtocol<R> {}
+impl<R> AProbe for pilota::thrift::compact::TAsyncCompactProtocol<R> {
+    fn astate(&self) -> Value {
+        let (last, stack, pv) = self.verif_state();
+        json!({"last": last, "stack": stack, "pv": match pv { None => json!([]), Some(b) => json!([if b {1} else {0}]) }, "pid": []})
+    }
+}
+
+/// `TracedAR<P>`: a TAsyncInputProtocol that delegates to the real asynchronous protocol and logs one event per call in the
+/// format of the in-memory readers; `pos` mirrors the number of bytes the scripted stream has delivered.
+pub struct TracedAR<P> {
+    pub inner: P,
+    pub log: Vec<Value>,
+    pos: usize,
+    shared: Arc<AtomicUsize>,
+    pub unmodelled: Vec<String>,
+}
+
+impl<P: TAsyncInputProtocol + AProbe> TracedAR<P> {
+    pub fn new(inner: P, shared: Arc<AtomicUsize>) -> Self {
+        let st = inner.astate();
+        TracedAR { inner, log: vec![json!({"op":"init","st":st})], pos: 0, shared, unmodelled: vec![] }
+    }
+    fn r(&mut self, mut ev: Value) {
+        let now = self.shared.load(Ordering::SeqCst);
+        ev["n"] = json!(now - self.pos);
+        self.pos = now;
+        ev["st"] = self.inner.astate();
+        self.log.push(ev);
+    }
+}
+
+impl<P: TAsyncInputProtocol + AProbe + Send> TAsyncInputProtocol for TracedAR<P> {
+    async fn read_message_begin(&mut self) -> Result<TMessageIdentifier, ThriftException> {
+        self.unmodelled.push("async.read_message_begin".into());
+        self.inner.read_message_begin().await
+    }
+    async fn read_message_end(&mut self) -> Result<(), ThriftException> {
+        self.inner.read_message_end().await
+    }
+    async fn read_struct_begin(&mut self) -> Result<Option<TStructIdentifier>, ThriftException> {
+        let r = self.inner.read_struct_begin().await?;
+        self.r(json!({"op":"r_struct_begin"}));
+        Ok(r)
+    }
+    async fn read_struct_end(&mut self) -> Result<(), ThriftException> {
+        self.inner.read_struct_end().await?;
+        self.r(json!({"op":"r_struct_end"}));
+        Ok(())
+    }
+    async fn read_field_begin(&mut self) -> Result<TFieldIdentifier, ThriftException> {
+        let f = self.inner.read_field_begin().await?;
+        if f.field_type == TType::Stop {
+            self.r(json!({"op":"r_field_stop"}));
+        } else {
+            self.r(json!({"op":"r_field_begin","t":f.field_type as u8,"id":f.id.unwrap_or(0)}));
+        }
+        Ok(f)
+    }
+    async fn read_field_end(&mut self) -> Result<(), ThriftException> {
+        self.inner.read_field_end().await?;
+        self.r(json!({"op":"r_field_end"}));
+        Ok(())
+    }
+    async fn read_bool(&mut self) -> Result<bool, ThriftException> {
+        let b = self.inner.read_bool().await?;
+        self.r(json!({"op":"r_bool","b": if b {1} else {0}}));
+        Ok(b)
+    }
+    async fn read_bytes(&mut self) -> Result<Bytes, ThriftException> {
+        let b = self.inner.read_bytes().await?;
+        self.r(json!({"op":"r_binary","api":"bytes","v":bytes_json(&b)}));
+        Ok(b)
+    }
+    async fn read_bytes_vec(&mut self) -> Result<Vec<u8>, ThriftException> {
+        let b = self.inner.read_bytes_vec().await?;
+        self.r(json!({"op":"r_binary","api":"vec","v":bytes_json(&b)}));
+        Ok(b)
+    }
+    async fn read_uuid(&mut self) -> Result<[u8; 16], ThriftException> {
+        let u = self.inner.read_uuid().await?;
+        self.r(json!({"op":"r_uuid","v":bytes_json(&u)}));
+        Ok(u)
+    }
+    async fn read_string(&mut self) -> Result<String, ThriftException> {
+        let s = self.inner.read_string().await?;
+        self.r(json!({"op":"r_binary","api":"str","v":bytes_json(s.as_bytes())}));
+        Ok(s)
+    }
+    async fn read_faststr(&mut self) -> Result<FastStr, ThriftException> {
+        let s = self.inner.read_faststr().await?;
+        self.r(json!({"op":"r_binary","api":"faststr","v":bytes_json(s.as_bytes())}));
+        Ok(s)
+    }
+    async fn read_byte(&mut self) -> Result<u8, ThriftException> {
+        let x = self.inner.read_byte().await?;
+        self.r(json!({"op":"r_i8","v":[x]}));
+        Ok(x)
+    }
+    async fn read_i8(&mut self) -> Result<i8, ThriftException> {
+        let x = self.inner.read_i8().await?;
+        self.r(json!({"op":"r_i8","v":[x as u8]}));
+        Ok(x)
+    }
+    async fn read_i16(&mut self) -> Result<i16, ThriftException> {
+        let x = self.inner.read_i16().await?;
+        self.r(json!({"op":"r_i16","v":limbs(x as u16 as u64, 1)}));
+        Ok(x)
+    }
+    async fn read_i32(&mut self) -> Result<i32, ThriftException> {
+        let x = self.inner.read_i32().await?;
+        self.r(json!({"op":"r_i32","v":limbs(x as u32 as u64, 2)}));
+        Ok(x)
+    }
+    async fn read_i64(&mut self) -> Result<i64, ThriftException> {
+        let x = self.inner.read_i64().await?;
+        self.r(json!({"op":"r_i64","v":limbs(x as u64, 4)}));
+        Ok(x)
+    }
+    async fn read_double(&mut self) -> Result<f64, ThriftException> {
+        let x = self.inner.read_double().await?;
+        self.r(json!({"op":"r_double","v":f64_bytes(x)}));
+        Ok(x)
+    }
+    async fn read_list_begin(&mut self) -> Result<TListIdentifier, ThriftException> {
+        let i = self.inner.read_list_begin().await?;
+        self.r(json!({"op":"r_list_begin","t":i.element_type as u8,"cnt":i.size,"async":true}));
+        Ok(i)
+    }
+    async fn read_list_end(&mut self) -> Result<(), ThriftException> {
+        self.inner.read_list_end().await?;
+        self.r(json!({"op":"r_list_end"}));
+        Ok(())
+    }
+    async fn read_set_begin(&mut self) -> Result<TSetIdentifier, ThriftException> {
+        let i = self.inner.read_set_begin().await?;
+        self.r(json!({"op":"r_set_begin","t":i.element_type as u8,"cnt":i.size,"async":true}));
+        Ok(i)
+    }
+    async fn read_set_end(&mut self) -> Result<(), ThriftException> {
+        self.inner.read_set_end().await?;
+        self.r(json!({"op":"r_set_end"}));
+        Ok(())
+    }
+    async fn read_map_begin(&mut self) -> Result<TMapIdentifier, ThriftException> {
+        let i = self.inner.read_map_begin().await?;
+        self.r(json!({"op":"r_map_begin","kt":i.key_type as u8,"vt":i.value_type as u8,"cnt":i.size,"async":true}));
+        Ok(i)
+    }
+    async fn read_map_end(&mut self) -> Result<(), ThriftException> {
+        self.inner.read_map_end().await?;
+        self.r(json!({"op":"r_map_end"}));
+        Ok(())
+    }
+    async fn skip(&mut self, field_type: TType) -> Result<(), ThriftException> {
+        self.inner.skip(field_type).await?;
+        // the asynchronous skipper reports nothing: the event carries what the stream delivered meanwhile
+        let n = self.shared.load(Ordering::SeqCst) - self.pos;
+        self.r(json!({"op":"r_skip","t":field_type as u8,"ret":n}));
+        Ok(())
+    }
+}
